@@ -113,6 +113,8 @@ def cases(draw, tier):
         else:
             q = other["Q"][draw(st.integers(0, len(other["Q"]) - 1))]
             other["F"] = [x for x in other["F"] if x != q] if q in other["F"] else other["F"] + [q]
+    if len(other["S"]) >= 2 and draw(st.booleans()):
+        other = dict(other, S=list(draw(st.permutations(other["S"]))))      # equal alphabets built in a different insertion order
     return {"kind": kind, "d1": base, "d2": other}
 
 
